@@ -40,7 +40,7 @@ pub struct Case {
 }
 
 pub const POINT_ADV: [&str; 9] = ["pass", "rerandomised-representation", "negated", "doubled", "G", "off-curve(y+1)", "point-cancelling-the-peer-key", "point-at-infinity", "affine-as-decoded-from-the-wire"];
-pub const HASH_ADV: [&str; 5] = ["pass", "flip-first-bit", "flip-last-bit", "all-zero", "forged-for-zero-shared-point"];
+pub const HASH_ADV: [&str; 8] = ["pass", "flip-first-bit", "flip-last-bit", "all-zero", "forged-for-zero-shared-point", "two-byte-tag-variant", "other-confirmation-value", "byte-xor-ff"];
 
 fn adv_point(p: &Point, code: u16, seed: u64, cancel: Option<&String>) -> Point {
     let r = ref_point(p);
@@ -71,7 +71,8 @@ fn adv_hash(h: &[u8; 32], code: u16) -> [u8; 32] {
         1 => o[0] ^= 0x80,
         2 => o[31] ^= 0x01,
         3 => o = [0; 32],
-        4 => {} // replaced by the caller (needs the transcript)
+        4 | 5 | 6 => {} // replaced by the caller (needs the transcript)
+        7 => o[0] ^= 0xff,
         // 100 + i: flip bit i
         c => {
             let i = (c - 100) as usize;
@@ -224,6 +225,14 @@ pub fn eval(ctx: &Ctx, case: &Case) {
         let inner = refmodels::sm3::sm3_cat(&[&z32, &za, &zb, &x1, &y1, &x2, &y2]);
         sb_del = refmodels::sm3::sm3_cat(&[&[0x02], &z32, &inner]);
     }
+    if adv[2] == 5 || adv[2] == 6 {
+        // values a lenient implementation might also accept: the pre-standard two-byte tag 00 02, and S_A in place of S_B
+        let (xv, yv) = sm2::xy_bytes(&b_ref.v);
+        let (x1, y1) = sm2::xy_bytes(&ra_del_ref);
+        let (x2, y2) = sm2::xy_bytes(&ref_point(&rb_pt));
+        let inner = refmodels::sm3::sm3_cat(&[&xv, &za, &zb, &x1, &y1, &x2, &y2]);
+        sb_del = if adv[2] == 5 { refmodels::sm3::sm3_cat(&[&[0x00, 0x02], &yv, &inner]) } else { b_ref.s_a };
+    }
     let sb_tampered = sb_del != sb;
     let r3 = guard(|| alice.exchange_3(&rb_del, sb_del));
     ctx.call();
@@ -269,7 +278,14 @@ pub fn eval(ctx: &Ctx, case: &Case) {
         return;
     }
     // --- deliver S_A (and R_A again) to B
-    let sa_del = adv_hash(&sa, adv[3]);
+    let mut sa_del = adv_hash(&sa, adv[3]);
+    if adv[3] == 5 || adv[3] == 6 {
+        let (xv, yv) = sm2::xy_bytes(&a_ref.v);
+        let (x1, y1) = sm2::xy_bytes(&ref_point(&ra_pt));
+        let (x2, y2) = sm2::xy_bytes(&ref_point(&rb_pt));
+        let inner = refmodels::sm3::sm3_cat(&[&xv, &za, &zb, &x1, &y1, &x2, &y2]);
+        sa_del = if adv[3] == 5 { refmodels::sm3::sm3_cat(&[&[0x00, 0x03], &yv, &inner]) } else { a_ref.s_b };
+    }
     let ra2_del = adv_point(&ra_pt, adv[4], ctx.seed ^ 2, cfg.cancel_a.as_ref());
     let ra2_tampered = adv[4] == 5 || adv[4] == 7 || ref_point(&ra2_del) != ref_point(&ra_pt);
     let r4 = guard(|| bob.exchange_4(sa_del, &ra2_del));
@@ -439,10 +455,10 @@ fn next_choices(adv: &[u16]) -> Vec<u16> {
                 vec![0, 1, 2, 3, 4, 5, 7, 8]
             }
         }
-        2 => (0..4).collect(),
+        2 => vec![0, 1, 2, 3, 5, 6, 7],
         3 => {
             if honest_pt(adv[0]) && honest_pt(adv[1]) && adv[2] == 0 {
-                (0..4).collect()
+                vec![0, 1, 2, 3, 5, 6, 7]
             } else {
                 vec![]
             }
@@ -455,7 +471,7 @@ fn next_choices(adv: &[u16]) -> Vec<u16> {
 pub fn run(ctx: &Arc<Ctx>) {
     refmodels::selftest::run(&["sm3", "sm2"]).unwrap_or_else(|e| ctx.machinery_error(format!("reference self-test failed: {}", e)));
     let n = sm2::params().n.clone();
-    ctx.set_rule("stateright BFS over all man-in-the-middle choice sequences on the real Exchange objects: R_A->B, R_B->A in {pass, re-randomised Jacobian representation, affine as decoded from the wire, -R, 2R, G, off-curve, point at infinity}, S_B->A, S_A->B in {pass, first bit flipped, last bit flipped, all-zero}, R_A handed to exchange_4 in the 6 point choices; every subset of the messages altered x every kind, per configuration (key pairs {Annex, (1,n-2), (n-2,2), seeded} x IDs x klen). Honest paths additionally for every klen 1..=200 (thorough 600), klen in {8160, 8191, 8192, 8193, 8225, 65537} and the nonce product r_A x r_B; every single-bit flip of S_B and of S_A on otherwise honest runs; keys crafted so that the peer's P + [x-bar]R' is the point at infinity for an adversary-chosen R' (the shared point is O: both roles must report failure, also against an S_B forged for a zero point). Invariant: honest deliveries (incl. re-randomised) give both sides the reference K (w=127), S_B, S_A (one-byte tags) and exchange_4 = true; any altered message makes the receiving step fail; off-curve points are refused by the step that receives them; a panic is a violation. ephemeral scalars fixed through the RNG seam. Honest runs with a static key equal to x-bar(R)*r (the peer's P + [x-bar]R is a doubling). Sessions: every sequence of <= 3 (thorough 4) runs over {honest, honest with roles swapped, abandoned after exchange_2, S_B altered, off-curve R_A} on one pair of Exchange objects - every honest run must yield the standard's values for its own ephemeral scalars.");
+    ctx.set_rule("stateright BFS over all man-in-the-middle choice sequences on the real Exchange objects: R_A->B, R_B->A in {pass, re-randomised Jacobian representation, affine as decoded from the wire, -R, 2R, G, off-curve, point at infinity}, S_B->A, S_A->B in {pass, first bit flipped, last bit flipped, all-zero, first byte xor ff, the value computed with the pre-standard two-byte tag, the other party's confirmation value}, R_A handed to exchange_4 in the 6 point choices; every subset of the messages altered x every kind, per configuration (key pairs {Annex, (1,n-2), (n-2,2), seeded} x IDs x klen). Honest paths additionally for every klen 1..=200 (thorough 600), klen in {8160, 8191, 8192, 8193, 8225, 65537} and the nonce product r_A x r_B; every single-bit flip of S_B and of S_A on otherwise honest runs; keys crafted so that the peer's P + [x-bar]R' is the point at infinity for an adversary-chosen R' (the shared point is O: both roles must report failure, also against an S_B forged for a zero point). Invariant: honest deliveries (incl. re-randomised) give both sides the reference K (w=127), S_B, S_A (one-byte tags) and exchange_4 = true; any altered message makes the receiving step fail; off-curve points are refused by the step that receives them; a panic is a violation. ephemeral scalars fixed through the RNG seam. Honest runs with a static key equal to x-bar(R)*r (the peer's P + [x-bar]R is a doubling). Sessions: every sequence of <= 3 (thorough 4) runs over {honest, honest with roles swapped, abandoned after exchange_2, S_B altered, off-curve R_A} on one pair of Exchange objects - every honest run must yield the standard's values for its own ephemeral scalars.");
     let mut g = SplitMix::new(ctx.seed, "c15");
     let annex = ("81EB26E941BB5AF16DF116495F90695272AE2CD63D6C4AE1678418BE48230029", "785129917D45A9EA5437A59356B82338EAADDA6CEB199088F14AE10DEFA229B5", "D4DE15474DB74D06491C440D305E012400990F3E390C7E87153C12DB2EA60BB3", "7E07124814B309489125EAED101113164EBF0F3458C5BD88335C1F9D596243D6");
     let seeded: Vec<BigUint> = (0..4).map(|_| g.nonzero_below(&(&n - 2u32))).collect();
